@@ -515,7 +515,8 @@ def run():
     add(["knownjoin", "exclude"], True, k=4 * m)
     add(["join", "joinsplitpick"], True, rename=True, k=10 * m)  # same-named (capitalised) columns of both sides across a split
     add(["join", "joinsplitpick"], True, k=6 * m)
-    add(["sort", "join", "take", "joinpick"], True, rename=True, k=6 * m)
+    add(["sort", "join", "take", "joinpick"], True, rename=True, k=8 * m)
+    add(["sort", "join", "take", "joinpick"], True, k=8 * m)
     add(["sort", "exclude"], False, k=8 * m)                   # the sort key itself is excluded (single table: the limiting SELECT carries the exclusion)
     add(["sort", "take", "exclude"], False, k=4 * m)
     add(["casealias"], True, k=4 * m)
